@@ -461,6 +461,13 @@ def multi_cases():
                     if pname != "field" and layout != "struct" and rname != "root":
                         continue  # full product along the struct / field axes
                     yield {"kind": "multi", "family": "keyword-prefixed-names", "files": files, "root": "vnd", "lookups": [n], "valid": True, "allow": False, "label": [n, pname, layout, rname]}
+    # (g) the naming rules apply to names taken from the FILE SYSTEM as well: short type names, nested namespace components and the root
+    #     namespace name, incl. names that are well-formed except for one trailing / leading control character
+    disk_names = [(n, False) for n in RESERVED] + [(n, True) for n in NEAR] + [(n, False) for n in ("Thing\n", "\nThing", "Thing\r", "Thing\t", "Thing ", "Th\ning", "Thing\n\n", "Thing\x0b", "Thing\u2028", "9Thing", "Th-ing", "Thing\u00e9", "\u212aelvin")]
+    for n, ok in disk_names:
+        yield {"kind": "multi", "family": "names-on-disk", "files": {"vnd/%s.1.0.dsdl" % n: "@sealed\n", "vnd/Good.1.0.dsdl": "@sealed\n"}, "root": "vnd", "valid": ok, "allow": False, "label": [n, "short-name"]}
+        yield {"kind": "multi", "family": "names-on-disk", "files": {"vnd/%s/A.1.0.dsdl" % n: "@sealed\n", "vnd/Good.1.0.dsdl": "@sealed\n"}, "root": "vnd", "valid": ok, "allow": False, "label": [n, "namespace-component"]}
+        yield {"kind": "multi", "family": "names-on-disk", "files": {"%s/A.1.0.dsdl" % n: "@sealed\n"}, "root": n, "valid": ok, "allow": False, "label": [n, "root-namespace"]}
     # (c) a broken dependency reached through several users / through a chain: every static rule applies to what is read, wherever it is read from
     for bad, ok in (("uint65 a\n@sealed\n", False), ("uint8 a\n", False), ("@union\nuint8 a\n@sealed\n", False), ("uint8 a\n@extent 4\n", False), ("uint8 a\n@sealed\n", True)):
         for chain in (1, 2, 3):
